@@ -19,7 +19,7 @@ RULE = ('corpus; structured random (array, label-map) pairs of 1-3 D: labeled_su
         'fullhistogram on all 11 dtypes (signed and float must be refused), is_same_labeling on unequal shapes (same pixels '
         'reshaped, transposed extents, one map shorter/longer), remove_regions_where (tables shorter/longer than the label '
         'range, bool and int tables), labeled.perimeter (2-D blobs, strokes, isolated pixels; n=4/8; 6 modes; 7 layouts). '
-        'Size-threshold stream (quick: 5 per run, thorough: 30; center_of_mass sums exceed 2^24 through the values): element counts, per-label '
+        'Size-threshold stream (quick: 10 per run - one per kind -, thorough: 30; center_of_mass sums exceed 2^24 through the values): element counts, per-label '
         'pixel counts, label values and numbers of labels crossing 2^8 / 2^15 / 2^16 (+-1) for labeled_size, fullhistogram, '
         'labeled_sum/max/min (judged by the Lean driver) and for relabel, is_same_labeling, remove_regions, bbox, labeled.bbox, '
         'center_of_mass (their Lean models are quadratic: the large cases are judged by an exact O(N) Python oracle, which is '
@@ -1039,7 +1039,7 @@ THR_POOL = [lambda r: _thr_counts(r, 'size'), lambda r: _thr_counts(r, 'hist'), 
 
 def _threshold_cases(rng, tier):
     if tier == 'quick':
-        return [g(rng) for g in rng.sample(THR_POOL, 5)]
+        return [g(rng) for g in THR_POOL]       # one per kind (0.7 s for all ten)
     return [g(rng) for g in THR_POOL for _ in range(3)]
 
 
